@@ -24,3 +24,4 @@ run M2 details/HashBucketOpen2N2.h "			bool useFullGetter = (hashProbe == emptyH
 run M3 details/HashBucketLimP4.h "				if (useHashCodePartGetter && hashCount - 1 - index >= count)" "				if (false && hashCount - 1 - index >= count)"
 run M4 HashSet.h "					buckets->GetLogCount(), mBuckets->GetLogCount());" "					mBuckets->GetLogCount(), buckets->GetLogCount());"
 run M5 details/HashBucketOpen2N2.h "				if (probe < (size_t{1} << probeShift))" "				if (probe <= (size_t{1} << probeShift))"
+run M6 HashSet.h "		startBucket.UpdateMaxProbe(probe);" "		//startBucket.UpdateMaxProbe(probe);"
